@@ -543,3 +543,100 @@ func init() {
 		return []sched.Failure{{Sig: sig, Detail: detail}}
 	}})
 }
+
+// ---------------------------------------------------------------------------
+// C18 (I) a SCAN call whose request waits in a backend client's queue (the connection is being re-established)
+// while the session already reads what the client sends next.
+//
+// alphabet  encoding inline | RESP array; SCAN 0 with MATCH / COUNT / both; what follows: another SCAN with other
+//           arguments | a GET | a long inline PING | nothing
+// bound     every combination; default schedule, one write per command
+// oracle    every SCAN call a node receives carries exactly the arguments the client gave; one reply per
+//           command, SCAN replies have the (cursor, keys) shape and carry the node's keys
+// ---------------------------------------------------------------------------
+
+func c18queuedBody() {
+	inline := sched.Choose(sched.ClsInput, 2, "encoding") == 1
+	first := [][]string{{"SCAN", "0", "MATCH", "a:*"}, {"SCAN", "0", "COUNT", "10"}, {"SCAN", "0", "MATCH", "a:*", "COUNT", "10"}}[sched.Choose(sched.ClsInput, 3, "scan arguments")]
+	cl := cluster.New(2, 0, 2)
+	cl.Nodes[0].ScanChain = map[string]cluster.ScanStep{"0": {Next: "7", Keys: []string{"a:1", "a:2"}}, "7": {Next: "0", Keys: []string{"a:3"}}}
+	cl.Nodes[1].ScanChain = map[string]cluster.ScanStep{"0": {Next: "0", Keys: []string{"a:4"}}}
+	key := cl.KeyInGroup("bb", 0, 0)
+	next := [][]string{nil, {"SCAN", "7", "MATCH", "bb:?", "COUNT", "77"}, {"GET", key}, {"PING", "zzzzzzzzzzzzzzzzzzzzzzzzzzzzzzzzzzzzzzzz"}}[sched.Choose(sched.ClsInput, 4, "next command")]
+	s := vfStartStack(cl, vfSvcConfig(0, nil, 0))
+	c := s.NewClient("c0")
+	for _, n := range cl.Nodes {
+		n.CloseConns()
+	}
+	sched.WaitQuiescent()
+	vnet.HoldDials(true, cl.Nodes[0].Addr, cl.Nodes[1].Addr)
+	mark := len(cl.Log)
+	enc := func(args []string) []byte {
+		if inline {
+			return []byte(strings.Join(args, " ") + "\r\n")
+		}
+		return resp.Encode(resp.Cmd(args...))
+	}
+	cmds := [][]string{first}
+	if next != nil {
+		cmds = append(cmds, next)
+	}
+	for _, a := range cmds {
+		if err := c.Send(enc(a)); err != nil {
+			sched.Fail("connection-failed / queued SCAN", err.Error())
+			return
+		}
+		sched.WaitQuiescent()
+	}
+	vnet.HoldDials(false)
+	tag := fmt.Sprintf("inline=%v %q then %q", inline, first, next)
+	for i, a := range cmds {
+		v, err := c.Read()
+		if err != nil {
+			sched.Fail("reply-missing / queued SCAN", fmt.Sprintf("%s: reply %d: %v", tag, i, err))
+			return
+		}
+		if a[0] != "SCAN" {
+			continue
+		}
+		if v.Kind != '*' || len(v.Arr) != 2 {
+			sched.Fail("scan-reply-shape / queued SCAN", fmt.Sprintf("%s: reply %d is %s", tag, i, v))
+			continue
+		}
+		var keys []string
+		for _, k := range v.Arr[1].Arr {
+			keys = append(keys, string(k.Str))
+		}
+		want := "a:1,a:2"
+		if a[1] == "7" {
+			want = "a:3"
+		}
+		if strings.Join(keys, ",") != want {
+			sched.Fail("keys-never-returned / queued SCAN", fmt.Sprintf("%s: reply %d carries %v, the node's step has %s", tag, i, keys, want))
+		}
+	}
+	sched.WaitQuiescent()
+	var seen, exp []string
+	for _, e := range cl.Log[mark:] {
+		if strings.EqualFold(e.Args[0], "scan") {
+			seen = append(seen, strings.Join(e.Args, " "))
+		}
+	}
+	for _, a := range cmds {
+		if a[0] == "SCAN" {
+			exp = append(exp, strings.Join(a, " "))
+		}
+	}
+	sort.Strings(seen)
+	sort.Strings(exp)
+	if strings.Join(seen, "|") != strings.Join(exp, "|") {
+		sched.Fail("scan-arguments-changed-on-the-way / queued SCAN", fmt.Sprintf("%s: nodes received %q", tag, seen))
+	}
+	sched.SetOutcome(fmt.Sprintf("inline=%v", inline))
+}
+
+func init() {
+	sched.Register(&sched.Scenario{Name: "C18/scan-queued", Setup: func(tier string) (sched.Config, func()) {
+		return sched.Config{Bounds: sched.Bounds{}, MaxSteps: 100000}, c18queuedBody
+	}})
+}
